@@ -28,6 +28,7 @@ struct Prog {
     std::vector<Wai> wai;
     uint8_t moves;                 // promise moved k times before use
     bool resolvers_first;
+    bool assign_over = false;      // before use the promise is move-ASSIGNED onto a promise that still owns another, unresolved future
 };
 
 inline Prog decode(hz::Reader &r, Mode m) {
@@ -47,6 +48,7 @@ inline Prog decode(hz::Reader &r, Mode m) {
     }
     p.moves = (uint8_t)r.mod(3);
     p.resolvers_first = r.flag();
+    p.assign_over = r.mod(3) == 1;
     for (auto &x : p.res) { unsigned e = r.mod(8); if (e >= 3) x.action = (uint8_t)(A_MOVE_THEN_VALUE + (e - 3)); }
     return p;
 }
@@ -57,7 +59,7 @@ inline std::string describe(const Prog &p) {
         "move the promise into a local, then value", "move-assign the promise into a local and destroy it", "bind(value) then call", "unhandled_exception() in a catch block", "move into promise_with_default and destroy it"};
     static const char *wk[] = {"co_await f", "co_await f.has_value()", "f.wait()", "f.sync()", "subscribe(custom awaiter)", "callback_await", "poll ready()", "force_wait() inside a coroutine", "if (f) ... *f (operator bool / operator*)"};
     hz::Desc d;
-    d << "future<" << vt[p.vt] << ">, promise moved " << (unsigned)p.moves << "x, " << (p.resolvers_first ? "resolvers spawned first" : "waiters spawned first") << "; resolvers:";
+    d << "future<" << vt[p.vt] << ">, promise moved " << (unsigned)p.moves << "x" << (p.assign_over ? " and move-assigned onto a promise that owned another pending future" : "") << ", " << (p.resolvers_first ? "resolvers spawned first" : "waiters spawned first") << "; resolvers:";
     for (size_t i = 0; i < p.res.size(); i++) d << " R" << (unsigned)i << "[yield*" << (unsigned)p.res[i].yields << ", " << act[p.res[i].action] << "]";
     d << "; waiters:";
     for (size_t i = 0; i < p.wai.size(); i++) d << " W" << (unsigned)i << "[yield*" << (unsigned)p.wai[i].yields << ", " << wk[p.wai[i].kind] << "]";
@@ -325,6 +327,17 @@ void run_t(const Prog &p, Mode mode) {
         for (unsigned k = 0; k < p.moves; k++) {
             cocls::promise<typename Tr<VT>::T> tmp(std::move(*c.prom));
             c.prom.emplace(std::move(tmp));
+        }
+        if (p.assign_over) {
+            // p2 = std::move(p): the future p2 owned so far is resolved to no-value at once, p is left empty, p2 owns p's future
+            cocls::future<typename Tr<VT>::T> other;
+            cocls::promise<typename Tr<VT>::T> p2 = other.get_promise();
+            p2 = std::move(*c.prom);
+            HZ_CHECK(other.ready(), "move assignment onto a promise that owned a pending future left that future pending");
+            HZ_CHECK(!(bool)other.has_value(), "the future dropped by a move assignment has a value");
+            HZ_CHECK(!(bool)*c.prom, "the source of a promise move assignment still owns a future");
+            HZ_CHECK((bool)p2, "the target of a promise move assignment owns nothing");
+            c.prom.emplace(std::move(p2));
         }
         std::vector<std::thread> wt, rt;
         auto spawn_w = [&] { for (size_t i = 0; i < p.wai.size(); i++) wt.emplace_back([&c, i] { waiter_thread<VT>(c, (int)i); }); };
